@@ -170,25 +170,35 @@ P = {
         "step not marked continue-on-error was skipped by a false condition or returned without error); that otherwise - no rule, a "
         "mechanism error, a condition that cannot be evaluated, any error pipeline whose handlers record before they report success "
         "(shown for heimdall's three), a reached panic (stated on the rule alone, incl. continue-on-error steps) - the answer is a "
-        "non-1xx/2xx status or a non-OK gRPC result and the upstream is not contacted; that there is no third kind of answer; and "
+        "non-1xx/2xx status, a non-OK gRPC result or a dropped connection, and the upstream is not contacted; that there is no third kind of answer; and "
         "conversely (liveness) that a succeeded pipeline is answered positively.  The property predicate of the check is built from "
         "this specification and evaluated on the implementation's observations; the model is tied to the code on the projection the "
         "statement talks about by three streams per run: ~1200/30000 requests in groups through shared real composites / conditions "
         "/ error handlers / repository / executor / service stacks with a modal counting upstream, a concurrent pass under the race "
         "detector, and 240/4000 requests through a fully real configuration (no stubs)."),
     "level_note": (
-        "9 property theorems + 6 witnesses (computations on concrete rules showing each hypothesis necessary, non-vacuity, and how "
-        "the statement is read for continue-on-error steps).  Hypotheses: no status override in 100..299; for the decision service "
-        "the accepted code in 100..299; the rule has an authenticator (C14); error VALUES produced by mechanisms/conditions/panics "
-        "carry no RedirectError with a 1xx/2xx code (heimdall's redirect handler cannot: C01_loader_redirect_never_success); every "
-        "error handler records a pipeline error before returning nil (semantic condition on arbitrary handlers; holds for the three "
-        "mechanisms per C12's model of them).  Reading of the statement: 'an authenticator produced a subject' does not ask whether "
-        "falling back was legitimate (C04); continue-on-error steps are exempt as a whole, including evaluation errors of their "
-        "conditions, which the code swallows.  Trusted: Coq kernel/vm_compute; the harness; what mechanisms and CEL compute is data. "
-        "On ~10% of the generated cases the property predicate is vacuous because a hypothesis fails for the generated configuration "
-        "(reported per run as property_vacuous_share).  Not covered: CORS or other middleware shortcuts when configured (assumption: "
-        "no CORS), TLS/HTTP2, slow upstreams, more than ~6 requests per rule instance.  No shrinking of failing cases (the runner "
-        "writes the first raw cases).  No open finding."),
+        "8 property theorems + 1 corollary (C01_error_handler_cannot_rescue is C01_failed_never_reaches_upstream at a rule with a "
+        "replaced error pipeline, stated separately because the statement has the clause; its independent content is "
+        "C01_error_pipeline_never_forgets + C01_real_mechanisms_record) + 7 witnesses (computations on concrete rules: why each "
+        "hypothesis is there, non-vacuity, how the statement is read for continue-on-error steps; the redirect-handler witness uses a "
+        "handler the loader rejects since fix 6c5864d and is kept to show why that check matters, the redirect-value witness is the "
+        "live one).  Hypotheses: no status override in 100..299; for the decision service the accepted code in 100..299; the rule has "
+        "an authenticator (C14); error VALUES produced by mechanisms/conditions/panics carry no RedirectError with a 1xx/2xx code "
+        "(assumed; by reading, the only place in heimdall that builds a RedirectError is redirect_error_handler.go, whose code is "
+        "300..399 since fix 6c5864d: C01_loader_redirect_never_success, over C12's create_redirect, which C12's creation probe ties "
+        "to the real constructor); every error handler records a pipeline error before returning nil (semantic condition on "
+        "arbitrary handlers; holds for the three mechanisms per C12's model of them).  Reading of the statement: 'an authenticator "
+        "produced a subject' does not ask whether falling back was legitimate (C04); continue-on-error steps are exempt as a whole, "
+        "including evaluation errors of their conditions, which the code swallows.  Trusted: Coq kernel/vm_compute; the harness; what "
+        "mechanisms and CEL compute is data.  On ~12% of the generated cases (quick, seed 1: 192 of 1674) the property predicate is "
+        "vacuous because a hypothesis fails for the generated configuration: a 1xx/2xx status override (32 cases; there the "
+        "projection is not compared either, only the upstream hit bound), a decision accepted code outside 1xx/2xx, a silent stub "
+        "anywhere in the error pipeline - reached or not -, no authenticator (reported per run as property_vacuous_share / "
+        "corr_skipped_cases).  Not covered: panics raised outside mechanisms/conditions/error handlers (Finalize, the reverse proxy "
+        "incl. http.ErrAbortHandler on an upstream abort, translators, middlewares) have no theorem - the upstream-abort mode of the "
+        "streams exercises the reverse-proxy case only; CORS or other middleware shortcuts when configured (assumption: no CORS); "
+        "TLS/HTTP2; slow upstreams; more than ~6 requests per rule instance.  No shrinking of failing cases (the runner writes the "
+        "first raw cases).  No open finding."),
     "assumptions": [
         "no CORS is configured for the proxy service (with serve.proxy.cors set, rs/cors answers an OPTIONS pre-flight 204 itself "
         "without any rule being executed - no upstream contact, but a 2xx without a pipeline); trusted_proxies unset",
